@@ -120,6 +120,31 @@ Theorem c06_jwe_preattached :
     declared_use_ok "enc" k /\ (forall s, sender = Some s -> declared_use_ok "enc" s).
 Proof. exact p_c06_jwe_preattached. Qed.
 
+(* general JSON with ANY number of recipients, each with its own "alg" and key (given
+   per "kid" through a KeySet or a callable, or attached with add_recipient):
+   encrypt_json = Ok -> EVERY recipient key (and the sender key) is suitable *)
+Theorem c06_jwe_multi_encrypt :
+  forall prim src enc rs sender,
+    Forall (fun m => key_wf (m_key m)) rs -> (forall s, sender = Some s -> key_wf s) ->
+    jwe_multi_enc prim src enc rs sender = Ok tt ->
+    Forall (fun m => jwe_suitable (m_alg m) true (cek_of enc) (m_key m) sender nek) rs.
+Proof. exact jwe_multi_enc_suitable. Qed.
+
+(* decrypt_json = Ok -> every recipient key is use-checked whatever
+   verify_all_recipients (va); the plaintext comes from a recipient whose key is
+   suitable (and is the right material); with va every recipient key is suitable *)
+Theorem c06_jwe_multi_decrypt :
+  forall prim va src enc rs sender,
+    Forall (fun m => key_wf (m_key m)) rs -> (forall s, sender = Some s -> key_wf s) ->
+    jwe_multi_dec prim va src enc rs sender = Ok tt ->
+    Forall (fun m => declared_use_ok "enc" (m_key m)) rs /\
+    Exists (fun m => m_mat m = true /\
+                     jwe_suitable (m_alg m) false (cek_of enc) (m_key m) sender (m_epk m)) rs /\
+    (va = true ->
+     Forall (fun m => m_mat m = true /\
+                      jwe_suitable (m_alg m) false (cek_of enc) (m_key m) sender (m_epk m)) rs).
+Proof. exact jwe_multi_dec_suitable. Qed.
+
 Theorem c06_jwe_use_class :
   forall prim e alg enc r en k ek mat s,
     find_jwe alg = Some r -> find_enc enc = Some en ->
@@ -307,6 +332,31 @@ Example c06_jwe_instances :
           (Some (ex_key KEc "P-256" 0 true (Some "sig") None)) nek true = Err (EJose UnsupportedKeyUseError).
 Proof. vm_compute. repeat split; reflexivity. Qed.
 
+Example c06_jwe_multi_instances :
+  let r alg k mat := {| m_alg := alg; m_key := k; m_pre := false; m_epk := nek; m_mat := mat |} in
+  let good := ex_key KOct "" 128 true None None in
+  let sigk := ex_key KOct "" 128 true (Some "sig") None in
+  let rsa := ex_key KRsa "" 2048 true (Some "enc") None in
+  jwe_multi_dec prim_std true SrcKid "A128GCM" [r "A128KW" good true; r "RSA-OAEP" rsa true; r "A128GCMKW" good true] None = Ok tt /\
+  (* a key declared for "sig" on the FIRST recipient: refused, whatever verify_all_recipients *)
+  jwe_multi_dec prim_std true SrcKid "A128GCM" [r "A128KW" sigk true; r "RSA-OAEP" rsa true] None
+    = Err (EJose UnsupportedKeyUseError) /\
+  jwe_multi_dec prim_std false SrcCall "A128GCM" [r "A128KW" sigk true; r "RSA-OAEP" rsa true] None
+    = Err (EJose UnsupportedKeyUseError) /\
+  (* verify_all_recipients = False: a recipient that cannot be decrypted is skipped ... *)
+  jwe_multi_dec prim_std false SrcKid "A128GCM" [r "A192KW" good true; r "RSA-OAEP" rsa true] None = Ok tt /\
+  jwe_multi_dec prim_std true SrcKid "A128GCM" [r "A192KW" good true; r "RSA-OAEP" rsa true] None
+    = Err (EJose InvalidKeyLengthError) /\
+  (* ... but when no suitable key recovers the CEK the call fails *)
+  jwe_multi_dec prim_std false SrcKid "A128GCM" [r "A192KW" good true; r "RSA-OAEP" rsa false] None
+    = Err (EJose DecodeError) /\
+  jwe_multi_enc prim_std SrcKid "A128GCM" [r "A128KW" good true; r "RSA-OAEP" rsa true] None = Ok tt /\
+  jwe_multi_enc prim_std SrcKid "A128GCM" [r "A128KW" good true; r "RSA-OAEP" (ex_key KRsa "" 2047 false None None) true] None
+    = Err (EJose InvalidKeyLengthError) /\
+  jwe_multi_enc prim_std SrcKid "A128GCM" [r "A128KW" good true; r "dir" good true] None
+    = Err (EJose ConflictAlgorithmError).
+Proof. vm_compute. repeat split; reflexivity. Qed.
+
 (* the hypotheses of the theorems are met by these keys *)
 Example c06_wf_instance :
   key_wf (ex_key KEc "P-256" 0 true (Some "sig") (Some ["sign"])) /\
@@ -329,6 +379,8 @@ Print Assumptions c06_jws_curve_class.
 Print Assumptions c06_jws_complete.
 Print Assumptions c06_jwe.
 Print Assumptions c06_jwe_preattached.
+Print Assumptions c06_jwe_multi_encrypt.
+Print Assumptions c06_jwe_multi_decrypt.
 Print Assumptions c06_jwe_use_class.
 Print Assumptions c06_jwe_sender_use_class.
 Print Assumptions c06_jwe_type_class.
